@@ -22,5 +22,5 @@ CONSTANTS
   CRoot = 3
   DropLockBug = TRUE
   CachedLevelBug = FALSE
-INVARIANTS CTypeOK MutualExclusion RefinesWhenFree LPWWhenFree LockedReturnsAtomic LockFreeReadOK NoDeadlock
+INVARIANTS MutualExclusion
 CHECK_DEADLOCK FALSE
